@@ -148,7 +148,8 @@ HostNorm(p) == HN(p, 1, <<>>)
 
 Kind(fs, hp) == IF hp \in fs.files THEN "file"
                 ELSE IF hp \in fs.dirs \/ hp = <<>>
-                     THEN (IF \E q \in fs.dirs \cup fs.files : Len(q) = Len(hp) + 1 /\ IsPrefix(hp, q) THEN "dir" ELSE "emptydir")
+                     THEN (IF \/ \E q \in fs.dirs : Len(q) = Len(hp) + 1 /\ IsPrefix(hp, q)
+                              \/ \E q \in fs.files : Len(q) = Len(hp) + 1 /\ IsPrefix(hp, q) THEN "dir" ELSE "emptydir")
                      ELSE "none"
 IsDir(fs, hp) == hp \in fs.dirs \/ hp = <<>>
 Children(S, hp) == {Last(q) : q \in {x \in S : Len(x) = Len(hp) + 1 /\ IsPrefix(hp, x)}}
